@@ -3,8 +3,23 @@
 proof side : lean/Heph/Props/C03.lean (theorems about lean/Heph/Model/Mutation.lean:
              eraseAt/skeleton/erasureDiff on the by-value IR, the feasibility test on an exported
              type graph through C19's dfs, the enumeration of combinations)
-tie to code: real programs through Generator -> TypeErasure (harness/pipeline.py) with the
-             recording plugin harness/plugin_tda.py:
+tie to code: real programs through TypeErasure with the recording plugin harness/plugin_tda.py, from
+             two streams:
+             STRUCTURED (harness/c03_family.py, a fixed number per tier, first): small IR programs
+             built by hand with the real src.ir classes from a grammar of erasure-relevant shapes —
+             ~50 initializer kinds (constants; `new C<targs>(args)` whose arguments do / do not
+             determine the type variables; nested generic constructors; calls of parameterized
+             functions whose type parameter occurs only in the result type / also in a parameter
+             type, with and without receiver; method calls and field accesses on receivers that are a
+             generic `new`, a variable, a field access, a generic call, a conditional; conditionals
+             with generic branches; `==` on a generic `new`; chains x declared from y declared from a
+             generic call) x declaration kinds (typed local, expression-bodied function, block body
+             with returned value, assignment, field assignment, call argument, global, non-final
+             local) x expected types (same constructor, parameterized super type, non-generic super
+             type, none), every combination that exists, in Java and (rotating) one other language,
+             then random compositions of several such declarations in one function (run.rng);
+             GENERATED (harness/pipeline.py): Generator -> TypeErasure, within a wall-clock budget.
+             Judges, on every program of both streams:
              (a) `mut.erasure_diff` on the by-value exports before/after must answer sites of
                  the three permitted kinds only; an independent by-value walk in Python
                  (`py_erasure_diff`) must find the same sites, and their number must equal the
@@ -12,11 +27,33 @@ tie to code: real programs through Generator -> TypeErasure (harness/pipeline.py
              (b) the model must agree with every recorded answer of `is_combination_feasible`
                  (pre-filter on the shared graph, combination queries on the filtered graph,
                  random extra combinations on the graph as built) and with the combination applied;
-             (c) the erased program is judged by the verified checker (driver op "check.wt",
-                 used only if it exists) and, for Java, by javac: original accepted and erased
-                 rejected is a violation;
+             (c) the erased program is judged by the verified checker of C01 (driver op "check.wt",
+                 on the recorded inferred types) and, for Java, by javac: original accepted and erased
+                 rejected is a violation (structured stream: one grouped javac run over the programs
+                 whose Java text changed, every program in a package of its own, stopped after flow
+                 analysis; a rejection is confirmed by a complete javac run of the pair);
              (d) a plain-Python restatement of the feasibility criterion by reachability closure
-                 (`ref_feasible`) judges every recorded answer independently of the model.
+                 (`ref_feasible`) judges every recorded answer independently of the model;
+             and on every program of the structured stream
+             (e) the INFERENCE ORACLE harness/c03_oracle.py: a type checker with local inference over
+                 the by-value export of the erased program that knows nothing of the type graph —
+                 an omitted declared type must be synthesisable from the initializer / body without
+                 an expected type, omitted type arguments must be determined by the arguments or by
+                 an expected type that is still present (none in receiver position, in operands, in
+                 the initializer of a declaration whose type is omitted too), and the program must
+                 type check with what was inferred; `cannot-infer` / `ill-typed` is a violation whose
+                 signature is the SHAPE (construct : position path : missing source) and whose replay
+                 carries the descriptor, the by-value program, the language, the combinations
+                 applied and the texts;
+             (f) for Kotlin, a text-level restatement on the real translation of the erased program
+                 (nothing re-inserted): a receiver `A()`, `mk()`, `x.make()` … without type arguments,
+                 or a declaration without type whose whole initializer is such an expression, has no
+                 inferable type argument.
+             The construction of the type graph (TypeDependencyAnalysis) is NOT modelled in Lean: the
+             model reads the graph the code built; defects of the construction are what (c), (e), (f)
+             are for (seeded/C03-1 and C03-2 were missed before the structured stream existed).
+env        : C03_N / C03_BUDGET (generated stream), C03_FAMILY_RANDOM (random compositions),
+             C03_FAMILY_ONLY=<name prefix> (debug: part of the structured stream), C03_LANGS.
 """
 import itertools
 import json
@@ -29,6 +66,8 @@ from concurrent.futures import ThreadPoolExecutor
 
 import common
 import pipeline
+import c03_family
+import c03_oracle
 
 LEVEL = "proof"
 LANGS = ("java", "kotlin", "groovy", "scala")
@@ -148,11 +187,19 @@ def py_erasure_diff(before, after):
 MAX_PER_SIGNATURE = 5
 
 
+FAMILY_CTX = {}     # (name, lang) -> the concrete program of a structured-stream spec (for replays)
+
+
 def report(run, obj, signature, no_input=False):
-    """run.violation, at most MAX_PER_SIGNATURE replays per signature (the rest is counted)"""
+    """run.violation, at most MAX_PER_SIGNATURE replays per signature (the rest is counted); an
+    alarm on a program of the structured stream carries the concrete program: by-value export,
+    language, the combinations applied, the erased sites and the texts"""
     c = run.cov.setdefault("alarms_by_signature", {})
     c[signature] = c.get(signature, 0) + 1
     if c[signature] <= MAX_PER_SIGNATURE:
+        sp = obj.get("spec") if isinstance(obj, dict) else None
+        if isinstance(sp, dict) and "family" in sp:
+            obj = dict(obj, **FAMILY_CTX.get((sp.get("name"), sp.get("lang")), {}))
         run.violation(obj, signature=signature, no_input=no_input)
 
 
@@ -331,6 +378,62 @@ def javac_many(texts):
         shutil.rmtree(d, ignore_errors=True)
 
 
+def javac_grouped(texts):
+    """[(exit status, diagnostics)] for Java texts that all declare DIFFERENT packages: compiled
+    together by one javac process (the files cannot see each other's package-private classes, so a
+    file is accepted together iff it is accepted alone); the files without a diagnostic of a failing
+    round are compiled again without the failing ones, until a round succeeds — that round is the
+    verdict `accepted` of its files.  The compiler stops after flow analysis (no class files): every
+    diagnostic of attribution and flow is produced; a rejection found this way is confirmed by a complete
+    javac run of the pair before it is reported (judge_javac)"""
+    import re
+    if not texts:
+        return []
+    d = tempfile.mkdtemp(prefix="c03jg_")
+    try:
+        paths = []
+        for i, t in enumerate(texts):
+            os.makedirs(os.path.join(d, "s%d" % i))
+            paths.append(os.path.join(d, "s%d" % i, "Main.java"))
+            with open(paths[-1], "w") as f:
+                f.write(t)
+        res = [None] * len(texts)
+        todo = list(range(len(texts)))
+        for _round in range(6):
+            if not todo:
+                break
+            out_dir = os.path.join(d, "out%d" % _round)
+            try:
+                p = subprocess.run(["javac", "-J-XX:TieredStopAtLevel=1", "-J-XX:+UseSerialGC", "-XDshould-stop.ifNoError=FLOW",
+                                    "-nowarn", "-Xmaxerrs", "100000", "-d", out_dir] + [paths[i] for i in todo],
+                                   stdout=subprocess.PIPE, stderr=subprocess.STDOUT, text=True, timeout=900)
+            except subprocess.TimeoutExpired:
+                raise common.HarnessError("javac (grouped) timeout")
+            if p.returncode == 0:
+                for i in todo:
+                    res[i] = (0, "")
+                todo = []
+                break
+            diag, cur = {}, None
+            for line in p.stdout.splitlines():
+                m = re.match(r"^(.*?/s(\d+)/Main\.java):\d+: (?:error|warning):", line)
+                if m:
+                    cur = int(m.group(2))
+                if cur is not None:
+                    diag.setdefault(cur, []).append(line.replace(os.path.dirname(paths[cur]) + "/", ""))
+            bad = [i for i in todo if any(": error:" in l for l in diag.get(i, []))]
+            if not bad:
+                raise common.HarnessError("javac (grouped) failed without a per-file diagnostic: " + p.stdout[-600:])
+            for i in bad:
+                res[i] = (1, "\n".join(diag[i])[-8000:])
+            todo = [i for i in todo if i not in bad]
+        if todo:
+            raise common.HarnessError("javac (grouped): no verdict after 6 rounds for %d files" % len(todo))
+        return res
+    finally:
+        shutil.rmtree(d, ignore_errors=True)
+
+
 def checker_available():
     a = common.run_driver([{"op": "check.wt"}])[0]
     return not ("error" in a and "unknown op" in a["error"])
@@ -408,7 +511,7 @@ def _stream_worker(specs, counter, lock, outdir):
         if i >= len(specs):
             return
         try:
-            r = pipeline.run_one(specs[i])
+            r = run_spec(specs[i])
         except BaseException as e:  # noqa: BLE001  (reported as data; the worker goes on)
             r = {"spec": specs[i], "stages": {}, "exception": {"type": "worker:" + type(e).__name__, "msg": str(e)[:300]}}
         tmp = os.path.join(outdir, "%d.tmp" % i)
@@ -428,7 +531,7 @@ def stream_results(run, specs, budget_s, workers=None):
     t0 = time.time()
     if len(specs) <= 2:
         for sp in specs:
-            yield pipeline.run_one(sp)
+            yield run_spec(sp)
         return
     workers = workers or min(12, max(1, (os.cpu_count() or 2) - 4), len(specs))
     ctx = mp.get_context("fork")   # spawn would re-import the main module in every worker
@@ -473,7 +576,14 @@ def stream_results(run, specs, budget_s, workers=None):
 
 
 def spec_key(spec):
+    if "family" in spec:
+        return {"family": spec["family"], "name": spec["name"], "lang": spec["lang"]}
     return {k: spec[k] for k in ("lang", "seed", "switches", "max_depth", "stages")}
+
+
+def run_spec(spec):
+    """the real pipeline on a generated program, or on the built program of a structured-stream spec"""
+    return c03_family.run_family(spec) if "family" in spec else pipeline.run_one(spec)
 
 
 # ------------------------------------------------------------------ the checks
@@ -641,6 +751,12 @@ def judge_javac(run, r, jres, sites=None):
                                    "erased-ok" if rc_e == 0 else "erased-rejected",
                                    "" if g != e else "(same text)"))
     run.count({"javac": [rc_g == 0, rc_e == 0], "changed": g != e, "spec": spec_key(r["spec"])}, nontrivial=g != e)
+    if rc_g == 0 and rc_e != 0 and "family" in r["spec"] and \
+            sum(v for k, v in run.cov.get("javac", {}).items() if k.startswith("confirmed-alone")) < 3:
+        # the grouped compile stops after flow analysis: the first rejections of a run are confirmed with
+        # the complete compiler, each text alone (a JVM start each: not for every one of a series)
+        (rc_g, out_g), (rc_e, out_e) = javac(g), javac(e)
+        run.tally("javac", "confirmed-alone:%s/%s" % (rc_g == 0, rc_e == 0))
     if rc_g == 0 and rc_e != 0:
         sig = erased_java_shape(g, e, out_e, r["stages"]["gen"]["export"], sites)
         report(run, {"spec": spec_key(r["spec"]), "what": "erased Java program rejected by javac",
@@ -648,7 +764,7 @@ def judge_javac(run, r, jres, sites=None):
 
 
 def wt_ok(a):
-    return a["r"] is True or (isinstance(a["r"], dict) and a["r"].get("ok") is True)
+    return a["r"] == "ok"
 
 
 def judge_checker(run, r, a_e, a_g):
@@ -660,6 +776,103 @@ def judge_checker(run, r, a_e, a_g):
     if ok_g and not ok_e:
         report(run, {"spec": spec_key(r["spec"]), "what": "erased program rejected by check.wt (inference mode)",
                        "answer": a_e["r"]}, signature="C03:%s:erased:check.wt-rejects" % r["spec"]["lang"])
+
+
+# ------------------------------------------------------------------ structured stream: specification-side judges
+def family_context(r, sites):
+    """the concrete program of a structured-stream result, for replays"""
+    fns = r.get("plugins", {}).get("plugin_tda", {}).get("erase", {}).get("functions", [])
+    applied = []
+    for fn in fns:
+        if fn.get("applied") and "nodes" in fn:
+            applied.append({"function": fn["ns"], "combination": [fn["nodes"][i]["s"] for i in fn["applied"]],
+                            "changed_the_program": [fn["nodes"][i]["s"] for i in fn["effect"]]})
+    texts = {}
+    for st in ("gen", "erase"):
+        for l, t in (r["stages"][st].get("texts") or {}).items():
+            texts["%s_%s" % (st, l)] = t[-3000:]
+    return {"lang": r["spec"]["lang"], "program": r["stages"]["gen"]["export"], "applied": applied,
+            "erased_sites": sites, "texts": texts}
+
+
+def judge_oracle(run, r):
+    """the erased program, read by a type checker with local inference that knows nothing of the type
+    graph: every omitted annotation must be derivable from what is still there"""
+    gen, er = r["stages"]["gen"]["export"], r["stages"]["erase"]["export"]
+    g, e = c03_oracle.judge(gen), c03_oracle.judge(er)
+    run.tally("infer_oracle(original/erased)", "%s/%s" % (g["verdict"], e["verdict"]))
+    run.count({"oracle": [g["verdict"], e["verdict"]], "name": r["spec"].get("name", "").split("/")[0]},
+              nontrivial=bool(e.get("inferred")))
+    if g["verdict"] == "outside" or e["verdict"] == "outside":
+        return
+    if g["verdict"] != "ok":
+        raise common.HarnessError("the inference oracle rejects the ORIGINAL program %s (%s): %s"
+                                  % (r["spec"].get("name"), r["spec"]["lang"], g))
+    if e["verdict"] != "ok":
+        report(run, {"spec": spec_key(r["spec"]), "what": "an omitted annotation is not what a compiler infers "
+                     "from the remaining program", "oracle": e},
+               signature="C03:infer-oracle:%s:%s" % (e["verdict"], e["shape"]))
+        return
+    # recorded types: an omitted declared type that is re-inferred differently is counted (the program
+    # still type checks with the inferred one, or the verdict would not be ok)
+    for path, t in e["inferred"].items():
+        run.tally("infer_oracle_types", "inferred" if path not in g["inferred"] else "was-never-declared")
+
+
+KT_RET_ONLY = r"(?:mk|mkA|mkB)\(\)"              # universe functions whose type parameter occurs only in the result
+KT_RET_ONLY_M = r"\.(?:make|mkAm)\(\)"
+KT_NOARG_NEW = r"A\(\)"
+
+
+def kotlin_text_alarms(text):
+    """text-level restatement for the Kotlin translation of a structured-stream program (fixed universe):
+    nothing is re-inserted, so (a) a receiver `A()`, `mk()`, `mkA()`, `mkB()`, `x.make()`, `x.mkAm()`
+    without type arguments has no inferable type argument (a receiver has no expected type), (b) a
+    declaration / expression-bodied function without declared type whose whole initializer is such an
+    expression (or a conditional with such a branch) has none either"""
+    import re
+    alarms = []
+    lines = text.splitlines()
+    for i, l in enumerate(lines):
+        st = l.strip()
+        for m in re.finditer(r"(?<![\w.>])(%s|%s)\." % (KT_NOARG_NEW, KT_RET_ONLY), st):
+            alarms.append("receiver-without-type-arguments:" + m.group(1))
+        for m in re.finditer(r"(%s)\." % KT_RET_ONLY_M, st):
+            alarms.append("receiver-without-type-arguments:" + m.group(1))
+        rhs = None
+        m = re.match(r"(?:val|var) \w+ = (.*)$", st)
+        if m:
+            rhs, ctx = m.group(1), "untyped-declaration"
+        elif re.match(r"fun (?:<[^>]*>)?\w+\([^)]*\) =$", st) and i + 1 < len(lines):
+            rhs, ctx = lines[i + 1].strip(), "untyped-expression-body"
+        if rhs is None:
+            continue
+        parts = [rhs]
+        m = re.match(r"\(?if \((.*?)\)\s+(.*?)\s+else\s+(.*?)\)?$", rhs)
+        if m:
+            parts = [m.group(2), m.group(3)]
+        for p_ in parts:
+            p_ = p_.strip()
+            if re.match(r"^(?:%s|%s)$" % (KT_NOARG_NEW, KT_RET_ONLY), p_) or re.match(r"^[^<]*%s$" % KT_RET_ONLY_M, p_) \
+                    and not re.search(r"<", p_.rsplit(".", 1)[-1]):
+                alarms.append("%s:%s" % (ctx, re.sub(r"^.*\.", ".", p_) if "." in p_ else p_))
+    return sorted(set(alarms))
+
+
+def judge_kotlin_text(run, r):
+    g = (r["stages"]["gen"].get("texts") or {}).get("kotlin")
+    e = (r["stages"]["erase"].get("texts") or {}).get("kotlin")
+    if g is None or e is None:
+        return
+    ag, ae = kotlin_text_alarms(g), kotlin_text_alarms(e)
+    run.tally("kotlin_text", "changed" if g != e else "same")
+    run.count({"kotlin_text": r["spec"].get("name"), "alarms": ae}, nontrivial=g != e)
+    if ag:
+        raise common.HarnessError("the Kotlin text judge rejects the ORIGINAL program %s: %s" % (r["spec"].get("name"), ag))
+    for a in ae:
+        report(run, {"spec": spec_key(r["spec"]), "what": "Kotlin translation of the erased program: no inferable "
+                     "type argument", "alarm": a}, signature="C03:kotlin-text:" + a)
+
 
 
 def small_streams(run):
@@ -687,8 +900,9 @@ def program_requests(run, r, have_checker):
         greqs, meta, notes = graph_requests(run, p["erase"]["tt"], fns)
         reqs += greqs
     if have_checker:
-        reqs.append({"op": "check.wt", "mode": "infer", **er["export"]})
-        reqs.append({"op": "check.wt", **gen["export"]})
+        import check_C01      # the request format of the C01 family (by-value image of the builtin factory)
+        reqs.append(check_C01.add_bt(er["export"]))
+        reqs.append(check_C01.add_bt(gen["export"]))
     return {"reqs": reqs, "fns": fns, "meta": meta, "notes": notes}
 
 
@@ -709,15 +923,25 @@ def batch_javac(run, batch):
     original and of the erased text"""
     t0 = time.time()
     texts, idx = [], []
+    out = [None] * len(batch)
+    fam = []
     for k, r in enumerate(batch):
         gen, er = r["stages"]["gen"], r["stages"]["erase"]
         if r["spec"]["lang"] == "java" and gen.get("texts") and er.get("texts"):
-            texts += [gen["texts"]["java"], er["texts"]["java"]]
-            idx.append(k)
+            if "family" in r["spec"]:
+                fam.append(k)     # every structured-stream program has a package of its own
+            else:
+                texts += [gen["texts"]["java"], er["texts"]["java"]]
+                idx.append(k)
     res = javac_many(texts)
-    out = [None] * len(batch)
     for j, k in enumerate(idx):
         out[k] = (res[2 * j], res[2 * j + 1])
+    if fam:
+        g = javac_grouped([batch[k]["stages"]["gen"]["texts"]["java"] for k in fam])
+        ch = [k for k in fam if batch[k]["stages"]["erase"]["texts"]["java"] != batch[k]["stages"]["gen"]["texts"]["java"]]
+        e = dict(zip(ch, javac_grouped([batch[k]["stages"]["erase"]["texts"]["java"] for k in ch])))
+        for j, k in enumerate(fam):
+            out[k] = (g[j], e.get(k, g[j]))
     return out, time.time() - t0
 
 
@@ -725,6 +949,12 @@ def judge_all(run, r, w, jres, have_checker):
     n = 1 + len(w["meta"])
     for note in w["notes"]:
         run.tally("graphs", note)
+    fam = "family" in r["spec"]
+    if fam:
+        d0 = w["answers"][0].get("r")
+        FAMILY_CTX[(r["spec"]["name"], r["spec"]["lang"])] = family_context(
+            r, d0.get("sites") if isinstance(d0, dict) else None)
+        run.tally("structured", r["spec"]["lang"])
     judge_diff(run, r, w["answers"][0])
     judge_graphs(run, r, w["fns"], w["meta"], w["reqs"][1:n], w["answers"][1:n])
     if have_checker:
@@ -732,6 +962,10 @@ def judge_all(run, r, w, jres, have_checker):
     if jres is not None:
         d = w["answers"][0].get("r")
         judge_javac(run, r, jres, d.get("sites") if isinstance(d, dict) else None)
+    if fam:
+        judge_oracle(run, r)
+        judge_kotlin_text(run, r)
+        FAMILY_CTX.pop((r["spec"]["name"], r["spec"]["lang"]), None)
 
 
 def add_time(run, key, dt):
@@ -814,16 +1048,81 @@ def check(run):
             specs.append(dict(json.load(open(os.path.join(corpus, f)))["spec"], cap=40 if run.tier == "quick" else 60))
     langs = tuple(os.environ.get("C03_LANGS", ",".join(LANGS)).split(","))
     base = int(os.environ["C03_BASE"]) if "C03_BASE" in os.environ else None   # calibration: seeds base, base+1, …
+    structured_stream(run, langs)
     if run.tier == "quick":
         specs += make_specs(run, int(os.environ.get("C03_N", "100")), langs=langs, cap=40, base=base)
-        run_all(run, specs, budget_s=int(os.environ.get("C03_BUDGET", "90")))
+        run_all(run, specs, budget_s=int(os.environ.get("C03_BUDGET", "70")))
     else:
         specs += make_specs(run, int(os.environ.get("C03_N", "4000")), langs=langs, cap=60)
         run_all(run, specs, budget_s=int(os.environ.get("C03_BUDGET", "1300")))
 
 
+def family_javac(rs):
+    """javac verdict pairs of the Java programs of the structured stream whose Java text changed (an
+    unchanged text has nothing to judge): two grouped compiles, originals and erased texts"""
+    t0 = time.time()
+    ch = [k for k, r in enumerate(rs) if r["spec"]["lang"] == "java" and r["stages"]["gen"].get("texts")
+          and r["stages"]["erase"]["texts"]["java"] != r["stages"]["gen"]["texts"]["java"]]
+    with ThreadPoolExecutor(2) as ex:
+        fg = ex.submit(javac_grouped, [rs[k]["stages"]["gen"]["texts"]["java"] for k in ch])
+        fe = ex.submit(javac_grouped, [rs[k]["stages"]["erase"]["texts"]["java"] for k in ch])
+        g, e = fg.result(), fe.result()
+    out = [None] * len(rs)
+    for j, k in enumerate(ch):
+        out[k] = (g[j], e[j])
+    return out, time.time() - t0
+
+
+def structured_stream(run, langs):
+    """hand-built programs of the shape grammar (harness/c03_family.py): a FIXED number per tier, the
+    exhaustive-small enumeration first, random compositions (run.rng) after.  All programs go through
+    the real TypeErasure in worker processes, then the model requests (chunks, one driver process each)
+    and ONE pair of grouped javac runs are made in parallel, then every program is judged in order"""
+    quick = run.tier == "quick"
+    n_random = int(os.environ.get("C03_FAMILY_RANDOM", "60" if quick else "1500"))
+    specs = c03_family.family_specs(run.rng, n_random, langs=langs, quick=quick)
+    if os.environ.get("C03_FAMILY_ONLY"):
+        specs = [sp for sp in specs if sp["name"].startswith(os.environ["C03_FAMILY_ONLY"])]
+    t0 = time.time()
+    have_checker = checker_available()
+    rs = []
+    for r in stream_results(run, specs, budget_s=3000):
+        if "exception" in r or "cutoff" in r or "erase" not in r.get("stages", {}):
+            raise common.HarnessError("structured stream: %s (%s) did not go through TypeErasure: %s" % (
+                r["spec"].get("name"), r["spec"]["lang"], r.get("exception", r.get("cutoff"))))
+        p = r.get("plugins", {}).get("plugin_tda", {})
+        if "error" in p:
+            raise common.HarnessError("plugin_tda failed: " + p["error"])
+        rs.append(r)
+    order = {(sp["name"], sp["lang"]): i for i, sp in enumerate(specs)}
+    rs.sort(key=lambda r: order[(r["spec"]["name"], r["spec"]["lang"])])
+    t1 = time.time()
+    chunk = 100
+    with ThreadPoolExecutor(5) as ex:
+        fj = ex.submit(family_javac, rs)
+        fms = [ex.submit(batch_model, run, rs[i:i + chunk], have_checker) for i in range(0, len(rs), chunk)]
+        ws, tm = [], 0.0
+        for f in fms:
+            w, t = f.result()
+            ws += w
+            tm += t
+        js, tj = fj.result()
+    t2 = time.time()
+    for r, w, jres in zip(rs, ws, js):
+        judge_all(run, r, w, jres, have_checker)
+    run.cov["structured_stream"] = {"programs": len(rs), "by_language": run.cov.get("structured"),
+                                    "time_pipeline_wall_s": round(t1 - t0, 1), "time_model_s": round(tm, 1),
+                                    "time_javac_s": round(tj, 1), "time_model_and_javac_wall_s": round(t2 - t1, 1),
+                                    "time_judge_s": round(time.time() - t2, 1), "wall_s": round(time.time() - t0, 1)}
+    run.log("structured stream: %d programs in %.0fs" % (len(rs), time.time() - t0))
+
+
 def replay(run, rp):
     run.build_and_audit()
+    if "family" in rp["spec"]:
+        sp = rp["spec"]
+        run_all(run, [c03_family.make_spec(sp["name"], sp["family"], sp["lang"])], budget_s=600)
+        return
     spec = dict(rp["spec"])
     spec.update({"export": True, "translate": ["java"] if spec["lang"] == "java" else None, "cap": 300,
                  "plugins": ["plugin_tda"], "erasure_options": {}})
